@@ -66,6 +66,13 @@ impl VRemapper {
     #[verifier::external_body] pub fn map_field_desc(&self, d: &FieldDescriptor) -> (res: Result<FieldDescriptor, VErr>) ensures res matches Ok(o) ==> o == sp_map_field_desc(*self, *d) { unimplemented!() }
     #[verifier::external_body] pub fn map_method_desc(&self, d: &MethodDescriptor) -> (res: Result<MethodDescriptor, VErr>) ensures res matches Ok(o) ==> o == sp_map_method_desc(*self, *d) { unimplemented!() }
     #[verifier::external_body] pub fn map_return_desc(&self, d: &ReturnDescriptor) -> (res: Result<ReturnDescriptor, VErr>) ensures res matches Ok(o) ==> o == sp_map_return_desc(*self, *d) { unimplemented!() }
+    // the rest of the BRemapper API, so that a traversal rewritten in terms of them is still decided by its postcondition (unit remapapi verifies these default methods)
+    #[verifier::external_body] pub fn map_method_name_and_desc(&self, class: &ObjClassName, m: &MethodNameAndDesc) -> (res: Result<MethodNameAndDesc, VErr>) ensures res matches Ok(o) ==> o == sp_map_method(*self, *class, m.name, m.desc) { unimplemented!() }
+}
+pub uninterp spec fn sp_as_obj(c: ClassName) -> Option<ObjClassName>;
+impl ClassName {
+    #[verifier::external_body] pub fn as_obj(&self) -> (r: Option<&ObjClassName>)
+        ensures (r matches Some(o) ==> sp_as_obj(*self) == Some(*o)), (r is None ==> sp_as_obj(*self) is None) { unimplemented!() }
 }
 #[verifier::external_body] pub fn vtodo<T>() -> T requires false { unimplemented!() }
 pub trait RemapAny: Sized {
